@@ -443,6 +443,76 @@ class Program:
             self._callers = cg
         return self._callers
 
+    def callgraph(self):
+        """caller key -> set of callee keys (direct calls resolved to definitions)."""
+        if getattr(self, "_cg", None) is None:
+            cg = {}
+            for F in self.functions.values():
+                out = cg.setdefault(F.key, set())
+                for nd in F.nodes:
+                    if nd and nd.get("k") == "call" and nd.get("fn"):
+                        G = self.resolve_call(F, nd)
+                        if G is not None:
+                            out.add(G.key)
+            self._cg = cg
+        return self._cg
+
+    def direct_writers(self, rec, field):
+        """Functions containing a plain or atomic store to rec::field."""
+        out = set()
+        for F in self.functions.values():
+            for nd in F.nodes:
+                if not nd:
+                    continue
+                k = nd.get("k")
+                tgt = None
+                if k == "bin" and nd.get("asg"):
+                    tgt = nd["lh"]
+                elif k == "un" and nd["op"] in ("post++", "post--", "pre++", "pre--"):
+                    tgt = nd["e"]
+                elif k == "call" and (nd.get("fn") or "").startswith("ABTD_atomic_") and "_load_" not in nd["fn"] and nd["a"]:
+                    tgt = nd["a"][0]
+                if tgt is not None and F.field_of(tgt) == (rec, field):
+                    out.add(F.key)
+        return out
+
+    def may_write(self, rec, field):
+        """Transitive closure: functions that may (through direct calls) store to rec::field."""
+        key = (rec, field)
+        cache = self.__dict__.setdefault("_maywrite", {})
+        if key not in cache:
+            cg = self.callgraph()
+            w = set(self.direct_writers(rec, field))
+            changed = True
+            while changed:
+                changed = False
+                for f, callees in cg.items():
+                    if f not in w and callees & w:
+                        w.add(f)
+                        changed = True
+            cache[key] = w
+        return cache[key]
+
+    def call_chain(self, src_key, targets, limit=6):
+        """A shortest call chain from src to any function in targets (for diagnostics)."""
+        from collections import deque
+        cg = self.callgraph()
+        prev = {src_key: None}
+        dq = deque([src_key])
+        while dq:
+            u = dq.popleft()
+            if u in targets and u != src_key:
+                path = []
+                while u is not None:
+                    path.append(u.split(":")[-1])
+                    u = prev[u]
+                return path[::-1]
+            for v in cg.get(u, ()):
+                if v not in prev:
+                    prev[v] = u
+                    dq.append(v)
+        return []
+
     def stats(self):
         nb = sum(len(f.blocks) for f in self.functions.values())
         nc = sum(1 for f in self.functions.values() for nd in f.nodes if nd and nd.get("k") == "call")
